@@ -261,6 +261,28 @@ def pauli_table_sites(ctx: Ctx, rule: str) -> None:
            f'bsf_wt of the rows XI, YI, IX is {_int(vd)!r} for the dense array and {_int(vs)!r} for the same rows as a '
            f'sparse matrix', key='bsf_wt|stack-agree', facts={'dense': repr(vd), 'sparse': repr(vs)})
 
+    # bsparse.insert_mod2 / is_one on a sparse row: toggles exactly the given column
+    bmi, ifn = m.func('panqec.bsparse', 'insert_mod2')
+    _, ofn = m.func('panqec.bsparse', 'is_one')
+    row = MiniCSR(np.zeros((1, 6), dtype=int))
+    hist = []
+    for col, want_row in ((3, [0, 0, 0, 1, 0, 0]), (0, [1, 0, 0, 1, 0, 0]), (5, [1, 0, 0, 1, 0, 1]), (3, [1, 0, 0, 0, 0, 1]),
+                          (1, [1, 1, 0, 0, 0, 1])):
+        outs = _run_fn(ctx, rule, bmi, ifn, [col, row])
+        ctx.need(len(outs) == 1 and outs[0].kind == 'return', rule, site_of(bmi, ifn), f'insert_mod2({col}): {outs!r}')
+        hist.append((col, row.toarray()[0].tolist(), want_row))
+    bad = [h for h in hist if h[1] != h[2]]
+    ctx.ob(rule, site_of(bmi, ifn), 'bsparse.insert_mod2 toggles exactly the given column of the row (insert, insert, insert, '
+                                    'remove, insert)', not bad,
+           f'after inserting {bad[0][0]} the row is {bad[0][1]}, expected {bad[0][2]}' if bad else '', key='insert_mod2|toggle',
+           facts=[h[1] for h in hist])
+    ones = []
+    for col in range(6):
+        v = _single(ctx, rule, bmi, ofn, _run_fn(ctx, rule, bmi, ofn, [col, row]))
+        ones.append(bool(v))
+    ob(site_of(bmi, ofn), 'bsparse.is_one reads the row insert_mod2 built', ones, [True, True, False, False, False, True],
+       'is_one|row')
+
     # mbp_decoder.symplectic_to_pauli / pauli_to_symplectic (1,2,3 = X,Y,Z)
     mbp = m.module('panqec.decoders.belief_propagation.mbp_decoder')
     consts = {}
